@@ -9,6 +9,7 @@ import (
 	"io"
 	"net"
 	"os"
+	"runtime"
 	"strconv"
 	"strings"
 	"sync"
@@ -33,6 +34,11 @@ type c23Conn struct {
 	closed bool
 	writes [][]byte
 	frag   int // > 0: deliver at most this many bytes per Read (fragmented client writes)
+	// relay phase: bytes the client sends only after it has seen the success reply, and what the
+	// server writes to the client after that reply
+	stage2   []byte
+	released bool
+	relayOut []byte
 }
 
 func c23NewConn(in []byte) *c23Conn {
@@ -78,7 +84,16 @@ func (c *c23Conn) Read(b []byte) (int, error) {
 func (c *c23Conn) Write(b []byte) (int, error) {
 	c.mu.Lock()
 	defer c.mu.Unlock()
+	if c.released {
+		c.relayOut = append(c.relayOut, b...)
+		return len(b), nil
+	}
 	c.writes = append(c.writes, append([]byte{}, b...))
+	if c.stage2 != nil && len(b) >= 10 && b[0] == 5 && b[1] == 0 { // success reply: the client starts talking
+		c.in = append(c.in, c.stage2...)
+		c.released = true
+		c.cond.Broadcast()
+	}
 	return len(b), nil
 }
 
@@ -106,10 +121,29 @@ func (c *c23Conn) SetReadDeadline(t time.Time) error {
 func (c *c23Conn) SetWriteDeadline(t time.Time) error { return nil }
 
 // c23Target is the connection a successful dial returns: EOF at once, writes discarded.
-type c23Target struct{ local *net.TCPAddr }
+type c23Target struct {
+	local *net.TCPAddr
+	mu    sync.Mutex
+	data  []byte // what the destination sends
+	got   []byte // what the destination receives
+}
 
-func (t *c23Target) Read(b []byte) (int, error)         { return 0, io.EOF }
-func (t *c23Target) Write(b []byte) (int, error)        { return len(b), nil }
+func (t *c23Target) Read(b []byte) (int, error) {
+	t.mu.Lock()
+	defer t.mu.Unlock()
+	if len(t.data) == 0 {
+		return 0, io.EOF
+	}
+	n := copy(b, t.data)
+	t.data = t.data[n:]
+	return n, nil
+}
+func (t *c23Target) Write(b []byte) (int, error) {
+	t.mu.Lock()
+	t.got = append(t.got, b...)
+	t.mu.Unlock()
+	return len(b), nil
+}
 func (t *c23Target) Close() error                       { return nil }
 func (t *c23Target) LocalAddr() net.Addr                { return t.local }
 func (t *c23Target) RemoteAddr() net.Addr               { return &net.TCPAddr{} }
@@ -125,6 +159,11 @@ type c23World struct {
 	udp     byte   // x o k f
 	icmp    byte
 	assoc   *socks5.UDPAssociation
+	// relay phase (optional)
+	relay      bool
+	clientData []byte
+	targetData []byte
+	target     *c23Target
 }
 
 func (w *c23World) act(s string) {
@@ -147,7 +186,11 @@ func (w *c23World) DialContext(ctx context.Context, network, address string) (ne
 	case p[0] == "ok":
 		port, _ := strconv.Atoi(p[2])
 		ip := net.IP(unhexTok(p[1]))
-		return &c23Target{local: &net.TCPAddr{IP: ip, Port: port}}, nil
+		t := &c23Target{local: &net.TCPAddr{IP: ip, Port: port}, data: append([]byte{}, w.targetData...)}
+		w.mu.Lock()
+		w.target = t
+		w.mu.Unlock()
+		return t, nil
 	case p[1] == "dns":
 		return nil, &net.OpError{Op: "dial", Net: "tcp", Err: &net.DNSError{Err: "no such host", Name: "x", IsNotFound: true}}
 	case p[1] == "timeout":
@@ -206,6 +249,9 @@ func c23Drive(h *socks5.Handler, w *c23World, input []byte, frag int) string {
 	}
 	conn := c23NewConn(input)
 	conn.frag = frag
+	if w.relay {
+		conn.stage2 = append([]byte{}, w.clientData...)
+	}
 	done := make(chan string, 1)
 	go func() {
 		defer func() {
@@ -251,5 +297,72 @@ func c23Drive(h *socks5.Handler, w *c23World, input []byte, frag int) string {
 	if len(w.actions) > 0 {
 		a = strings.Join(w.actions, "+")
 	}
-	return "r " + r + " a " + a
+	out := "r " + r + " a " + a
+	if w.relay {
+		conn.mu.Lock()
+		ro := conn.relayOut
+		conn.mu.Unlock()
+		var got []byte
+		if w.target != nil {
+			w.target.mu.Lock()
+			got = w.target.got
+			w.target.mu.Unlock()
+		}
+		out += " t " + hexTok(got) + " c " + hexTok(ro)
+	}
+	return out
+}
+
+// c23AtRest waits (at most `budget`) until every goroutine that has a frame from one of the given
+// packages is parked (innermost frame runtime.gopark), three polls in a row. The goroutine
+// profile is used (a full runtime.Stack dump can crash on frames it cannot unwind).
+var c23Recs = make([]runtime.StackRecord, 256)
+
+func c23AtRest(budget time.Duration, pkgs ...string) bool {
+	busy := func() bool {
+		n, ok := runtime.GoroutineProfile(c23Recs)
+		for !ok {
+			c23Recs = make([]runtime.StackRecord, 2*n+64)
+			n, ok = runtime.GoroutineProfile(c23Recs)
+		}
+		for _, rec := range c23Recs[:n] {
+			pcs := rec.Stack()
+			if len(pcs) == 0 {
+				continue
+			}
+			frames := runtime.CallersFrames(pcs)
+			top, hit := "", false
+			for {
+				fr, more := frames.Next()
+				if top == "" {
+					top = fr.Function
+				}
+				for _, p := range pkgs {
+					if strings.Contains(fr.Function, p) {
+						hit = true
+					}
+				}
+				if !more {
+					break
+				}
+			}
+			if hit && top != "runtime.gopark" {
+				return true
+			}
+		}
+		return false
+	}
+	stable := 0
+	for dl := time.Now().Add(budget); time.Now().Before(dl); {
+		if !busy() {
+			stable++
+			if stable >= 3 {
+				return true
+			}
+		} else {
+			stable = 0
+		}
+		time.Sleep(200 * time.Microsecond)
+	}
+	return false
 }
